@@ -257,10 +257,10 @@ def main():
         "setup_cmd": "python3 tools/check.py setup",
         "hooks": {
             "guard": "rfsm_verif",
-            "enable": "RUSTFLAGS='--cfg rfsm_verif' via /verif/harness/.cargo/config.toml (the harness depends on /repo by path)",
+            "enable": "RUSTFLAGS='--cfg rfsm_verif' via /verif/harness/.cargo/config.toml (the harness depends on /repo by path). 2226aba only adds code; fa7654f additionally splits five `use std::sync::{.., Mutex, ..}` lines into cfg-guarded alternatives (an import cannot be overridden by adding a line), with the guard off the imports are the original ones",
             "baseline_off_cmd": "cd /repo && cargo test --workspace --no-fail-fast --offline",
             "source_commits": HOOK_COMMITS,
-            "add_only": True,
+            "add_only": False,
         },
         "engines": [
             {"name": "tlc+vh", "path": "/verif/tools/check.py",
